@@ -565,9 +565,20 @@ def conv_systematic(tier):
             y = mk_yaml(decl, [expr], part={"O": {"Q": ["uniform_shape(2)"], "W": ["follow(Q)"]}}, lo={"O": lo})
             out.append({"yaml": y, "configs": [{"Q": 4, "S": 2, "W": a * 3 + b + 1}, {"Q": 6, "S": 2, "W": a * 5 + b + 1}], "family": "conv-us-mask", "key": y,
                         "coeffs": (a, b), "lo": lo, "cap": 60})
+    # the partitioned rank is not the output's: the filter rank S (the projected loop rank Q stays whole), or the input's own rank W
+    # (input-stationary, tiled input)
+    for a, b in ((1, 1), (2, 1)):
+        expr = "O[q] = I[%s + %s] * F[s]" % (t(a, "q"), t(b, "s"))
+        decl = {"I": ["W"], "F": ["S"], "O": ["Q"]}
+        for part, los in (({"S": ["uniform_shape(2)"]}, (["S1", "S0", "Q"], ["S1", "Q", "S0"], ["Q", "S1", "S0"], ["S1", "W", "S0"])),
+                          ({"W": ["uniform_shape(2)"]}, (["W1", "W0", "Q"], ["W1", "W0", "S"], ["W1", "Q", "W0"]))):
+            for lo in los:
+                y = mk_yaml(decl, [expr], part={"O": part}, lo={"O": lo})
+                out.append({"yaml": y, "configs": [{"Q": 4, "S": 3, "W": a * 3 + b * 2 + 1}], "family": "conv-other-rank", "key": y, "coeffs": (a, b), "lo": lo, "cap": 40})
     # three-term index expressions (the halo of the follower is a sum: post_halo=-2 + S + T)
     decl3 = {"I": ["W"], "F": ["S"], "G": ["T"], "O": ["Q"]}
-    for expr3, wx in (("O[q] = I[q + s + t] * F[s] * G[t]", lambda Q, S, T: Q + S + T - 2), ("O[q] = I[2*q + s + 2*t] * F[s] * G[t]", lambda Q, S, T: 2 * (Q - 1) + (S - 1) + 2 * (T - 1) + 1)):
+    for expr3, wx in (("O[q] = I[q + s + t] * F[s] * G[t]", lambda Q, S, T: Q + S + T - 2), ("O[q] = I[2*q + s + 2*t] * F[s] * G[t]", lambda Q, S, T: 2 * (Q - 1) + (S - 1) + 2 * (T - 1) + 1),
+                      ("O[q] = I[q + -1*s + -1*t] * F[s] * G[t]", lambda Q, S, T: Q), ("O[q] = I[q + s + -1*t] * F[s] * G[t]", lambda Q, S, T: Q + S - 1)):
         for lo in (["Q", "S", "T"], ["S", "T", "Q"], ["W", "S", "T"], None):
             y = mk_yaml(decl3, [expr3], lo={"O": lo} if lo else None)
             out.append({"yaml": y, "configs": [{"Q": 3, "S": 2, "T": 2, "W": wx(3, 2, 2)}], "family": "affine-conv1-3term", "key": y, "coeffs": (1, 1), "cap": 40})
@@ -762,11 +773,15 @@ def st_conv_core():
     out = []
     cases = [({"I": ["W"], "F": ["S"], "O": ["Q"]}, "O[q] = I[q + s] * F[s]", (["Q1", "Q0", "S"], ["Q1", "S", "Q0"], ["S", "Q1", "Q0"], ["Q1", "W0", "Q0"])),
              ({"I": ["W"], "F": ["S"], "B": ["Q"], "O": ["Q"]}, "O[q] = I[q + s] * F[s] * B[q]", (["Q1", "S", "Q0"], ["Q1", "W0", "Q0"]))]
-    for decl, expr, los in cases:
+    cases = [c + ({"Q": ["uniform_shape(2)"], "W": ["follow(Q)"]},) for c in cases]
+    # the input's own rank tiled (input-stationary), the filter rank tiled
+    cases += [({"I": ["W"], "F": ["S"], "O": ["Q"]}, "O[q] = I[q + s] * F[s]", (["W1", "W0", "Q"], ["W1", "W0", "S"]), {"W": ["uniform_shape(2)"]}),
+              ({"I": ["W"], "F": ["S"], "O": ["Q"]}, "O[q] = I[q + s] * F[s]", (["S1", "S0", "Q"], ["S1", "Q", "S0"]), {"S": ["uniform_shape(2)"]})]
+    for decl, expr, los, pp in cases:
         for lo in los:
             for sty in (".pos", ".coord", ""):
                 for slip in (False, True):
-                    part = {"O": {"Q": ["uniform_shape(2)"], "W": ["follow(Q)"]}}
+                    part = {"O": pp}
                     st = {"O": {"space": [], "time": [r + sty for r in lo], "opt": "slip" if slip else None}}
                     y = mk_yaml(decl, [expr], part=part, lo={"O": lo}, st=st)
                     out.append({"yaml": y, "configs": [{"Q": 4, "S": 2, "W": 5}], "family": "spacetime-conv-core", "key": y, "stamped": True,
